@@ -64,8 +64,16 @@ CONTRACTS = {
                        "ensures": {"proper dict": "wf_map(result) and forall(k, Str, implies(has(result, k), result[k] is not None))"}, "note": "typing.get_type_hints(type(component))"},
     "rinit.hasattr": {"kind": "external", "params": {"obj": "py", "name": "Str"}, "returns": "Bool", "ensures": {"hasattr(self, m)": "result == robot_has(name)"}, "note": "hasattr(self, m): the attribute was already set by the user (reflection)"},
     "types.SimpleNamespace.__init__": {"kind": "external", "params": {}, "modifies": [], "ensures": {}},
-    "magic_tunable.setup_tunables": {"kind": "external", "cites": ['C09.S1'], "params": {"component": "py", "cname": "py", "prefix": "py"}, "modifies": [], "ensures": {}, "note": "setup_tunables: verified under C09 (contracts/tunable.py)"},
-    "magic_tunable.collect_feedbacks": {"kind": "external", "cites": ['C11.K3', 'C11.K4'], "params": {"component": "Ref:PyObj", "cname": "py", "prefix": "py"}, "returns": "Seq[(Ref:FbGetter,Ref:FbSetter)]", "modifies": [], "allocates": True,
+    "magic_tunable.setup_tunables": {"kind": "external", "cites": ['C09.S1'], "params": {"component": "Ref:PyObj", "cname": "Str", "prefix": "Opt[Str]"}, "modifies": [], "ensures": {},
+                                     "site_asserts_in": {f"{MR}._create_components": {
+                                         "C09.S4 tunables are bound under ('components', <the component's attribute name>), ('autonomous', <MODE_NAME>) and ('robot', no prefix) - the three documented key families":
+                                         "(component is L_self and cname == 'robot' and prefix is None) or "
+                                         "(prefix == 'components' and component is L_component and cname == L_cname) or "
+                                         "(prefix == 'autonomous' and component is L_mode and cname == L_mode.MODE_NAME)"}}, "note": "setup_tunables: verified under C09 (contracts/tunable.py)"},
+    "magic_tunable.collect_feedbacks": {"kind": "external", "cites": ['C11.K3', 'C11.K4'], "params": {"component": "Ref:PyObj", "cname": "Str", "prefix": "Opt[Str]"},
+                                        "site_asserts_in": {f"{MR}._create_components": {
+                                            "C11.S7 feedbacks are collected for the robot under ('robot', no prefix) and for every component under ('components', <its attribute name>)":
+                                            "(component is L_self and cname == 'robot' and prefix is None) or (prefix == 'components' and component is L_component and cname == L_cname)"}}, "returns": "Seq[(Ref:FbGetter,Ref:FbSetter)]", "modifies": [], "allocates": True,
                                         "ensures": {"a list": "len(result) >= 0",
                                                     "C11.K3/K4 (verified in contracts/tunable.py): getters are bound methods of the object, pairwise distinct; setters are new, pairwise distinct objects":
                                                     "forall(a, Int, implies(0 <= a and a < len(result), result[a][0] is not None and result[a][0].g_owner is component and result[a][1] is not None and allocated(result[a][1]) and not old(allocated(result[a][1])))) and "
